@@ -186,10 +186,17 @@ Wire(ds, ts, w) == NodesWire(ds, ts, w)
 (* SE sequence end, IS item start, IE item end, PS pixel sequence start,   *)
 (* OT offset table, IV item value.                                         *)
 (***************************************************************************)
-Tok(t, tag, vr, len, pos) == [t |-> t, tag |-> tag, vr |-> vr, len |-> len, pos |-> pos]
+(* A value token also carries the value: `val` = the bytes of the value      *)
+(* field (PV, IV) or the offset table entries (OT); `cmp` says whether the   *)
+(* value is defined (length a multiple of the value width).                  *)
+Tok(t, tag, vr, len, pos) == [t |-> t, tag |-> tag, vr |-> vr, len |-> len, pos |-> pos, val |-> <<>>, cmp |-> TRUE]
+TokV(t, len, pos, val, cmp) == [t |-> t, tag |-> <<0, 0>>, vr |-> "", len |-> len, pos |-> pos, val |-> val, cmp |-> cmp]
 NoTag == <<0, 0>>
+(* basic offset table entries: 32-bit unsigned values in the byte order of *)
+(* the transfer syntax                                                     *)
+OTEntries(ts, val) == [i \in 1..(Len(val) \div 4) |-> RdU32(ts, val, 4 * i - 3)]
 
-RECURSIVE NodeToks(_, _, _, _, _), NodesToks(_, _, _, _, _), ItemsToks(_, _, _, _, _), FragsToks(_, _, _, _, _)
+RECURSIVE NodeToks(_, _, _, _, _), NodesToks(_, _, _, _, _), ItemsToks(_, _, _, _, _), FragsToks(_, _, _, _, _, _)
 NodesToks(ns, ts, w, mode, o) ==
   IF ns = <<>> THEN <<>>
   ELSE NodeToks(Head(ns), ts, w, mode, o) \o NodesToks(Tail(ns), ts, w, mode, o + NodeSize(Head(ns), ts, w))
@@ -202,17 +209,20 @@ ItemsToks(its, ts, w, mode, o) ==
                    THEN <<Tok("IS", NoTag, "", UNDEF, o + 8)>> \o body \o <<Tok("IE", NoTag, "", 0, o + 8 + c + 8)>>
                    ELSE <<Tok("IS", NoTag, "", c, o + 8)>> \o body \o <<Tok("IE", NoTag, "", 0, o + 8 + c)>>
        IN this \o ItemsToks(Tail(its), ts, w, mode, o + ItemSize(it, ts, w))
-FragsToks(fs, first, w, mode, o) ==
+FragsToks(fs, first, ts, w, mode, o) ==
   IF fs = <<>> THEN <<>>
   ELSE LET a == Act(Head(fs).dl, w)
+           b == ValBytes("OB", a, Head(fs).salt)
            val == IF a = 0 THEN <<>>
-                  ELSE <<Tok(IF first /\ mode = "eager" THEN "OT" ELSE "IV", NoTag, "", a, o + 8 + a)>>
+                  ELSE IF first /\ mode = "eager" THEN <<TokV("OT", a, o + 8 + a, OTEntries(ts, b), a % 4 = 0)>>
+                  ELSE <<TokV("IV", a, o + 8 + a, b, TRUE)>>
        IN <<Tok("IS", NoTag, "", a, o + 8)>> \o val \o <<Tok("IE", NoTag, "", 0, o + 8 + a)>>
-          \o FragsToks(Tail(fs), FALSE, w, mode, o + 8 + a)
+          \o FragsToks(Tail(fs), FALSE, ts, w, mode, o + 8 + a)
 NodeToks(n, ts, w, mode, o) ==
   CASE n.k = "P" ->
          LET h == HeaderLen(ts, n.vr)  a == Act(n.dl, w) IN
-         <<Tok("EH", n.tag, SeenVR(ts, n.tag, n.vr), a, o + h), Tok("PV", NoTag, "", a, o + h + a)>>
+         <<Tok("EH", n.tag, SeenVR(ts, n.tag, n.vr), a, o + h),
+           TokV("PV", a, o + h + a, ValBytes(n.vr, a, n.salt), a % Width(SeenVR(ts, n.tag, n.vr)) = 0)>>
     [] n.k = "S" ->
          LET h == HeaderLen(ts, "SQ")  c == ItemsSize(n.items, ts, w) IN
          IF n.lm = "U"
@@ -222,7 +232,7 @@ NodeToks(n, ts, w, mode, o) ==
               \o <<Tok("SE", NoTag, "", 0, o + h + c)>>
     [] n.k = "X" ->
          LET h == HeaderLen(ts, "OB")  c == FragsSize(n.frags, w) IN
-         <<Tok("PS", NoTag, "", 0, o + h)>> \o FragsToks(n.frags, TRUE, w, mode, o + h)
+         <<Tok("PS", NoTag, "", 0, o + h)>> \o FragsToks(n.frags, TRUE, ts, w, mode, o + h)
          \o <<Tok("SE", NoTag, "", 0, o + h + c + 8)>>
 Toks(ds, ts, w, mode) == NodesToks(ds, ts, w, mode, 0)
 
